@@ -45,6 +45,7 @@ type Ctx struct {
 
 	passThroughMemo map[*ssa.Function][]int
 	starErrMemo     map[*ssa.Function]int
+	natMemo         *natInfo
 
 	rep *Report
 }
